@@ -112,6 +112,19 @@ def basic(B, G, k, l):
     cmp(B, G, "elementwise_mult(M,P)", cplx.elementwise_mult(M, P), zM * zP)
     Ms = cplx.scalar_mult(M, s.unsqueeze(1).unsqueeze(2)) if hasattr(s, "unsqueeze") else None
     cmp(B, G, "scalar_mult(M,s[2,1,1])", Ms, vmap(lambda v: v * zs, zM))
+    # genuine broadcasts: the result shape differs from both operand shapes / from the higher-rank operand
+    col, zcol = ct(B, "col", (k, 1))
+    row, zrow = ct(B, "row", (1, l))
+    bc = np.empty((k, l), dtype=object)
+    for i, j in np.ndindex(k, l):
+        bc[i, j] = zcol[i, 0] * zrow[0, j]
+    cmp(B, G, "scalar_mult(col,row)", cplx.scalar_mult(col, row), bc)
+    cmp(B, G, "scalar_mult(row,col)", cplx.scalar_mult(row, col), bc)
+    one, zone = ct(B, "one", (1,))
+    cmp(B, G, "scalar_mult(len1,x)", cplx.scalar_mult(one, x), vmap(lambda v: zone[0] * v, zx))
+    cmp(B, G, "elementwise_mult(x,len1)", cplx.elementwise_mult(x, one), vmap(lambda v: zone[0] * v, zx))
+    m11, zm11 = ct(B, "m11", (1, 1))
+    cmp(B, G, "scalar_mult(m11,w)", cplx.scalar_mult(m11, w), vmap(lambda v: zm11[0, 0] * v, zw).reshape(1, l))
     buf = torch.zeros(2, k, dtype=torch.double)
     r = cplx.scalar_mult(x, y, out=buf)
     G.fact("scalar_mult.out_is_returned", r is buf, "out= buffer identity")
